@@ -7,9 +7,18 @@ import (
 	"strconv"
 	"strings"
 
+	"github.com/boombuler/barcode/aztec"
 	"github.com/boombuler/barcode/twooffive"
 	"github.com/boombuler/barcode/utils"
 )
+
+// aztecSize: symbol dimension of a layer request (ISO/IEC 24778: compact 11+4L, full 15+4L+2*((2L+6)/15))
+func aztecSize(req int) int {
+	if req < 0 {
+		return 11 + 4*(-req)
+	}
+	return 15 + 4*req + 2*((2*req+6)/15)
+}
 
 func ints(s string) []int {
 	if s == "-" || s == "" {
@@ -47,6 +56,25 @@ func miscOp(f []string) (string, bool) {
 		return "ok str=" + hexField([]byte(s)), true
 	case "bl":
 		return bitListOp(f[1:]), true
+	case "aztec.min":
+		// automatic size, then every explicit request for a physically smaller symbol
+		data := unhex(f[1])
+		pct := atoi(f[2])
+		bc, err := aztec.Encode(data, pct, 0)
+		if err != nil || bc == nil {
+			return "rej", true
+		}
+		size := bc.Bounds().Max.X
+		var okReqs []int
+		for req := -4; req <= 32; req++ {
+			if req == 0 || aztecSize(req) >= size {
+				continue
+			}
+			if b2, err := aztec.Encode(data, pct, req); err == nil && b2 != nil {
+				okReqs = append(okReqs, req)
+			}
+		}
+		return fmt.Sprintf("ok auto=%d smaller_ok=%s", size, joinInts(okReqs)), true
 	case "gf.tables":
 		gf := utils.NewGaloisField(atoi(f[1]), atoi(f[2]), atoi(f[3]))
 		return fmt.Sprintf("ok size=%d base=%d alog=%s log=%s", gf.Size, gf.Base, joinInts(gf.ALogTbl), joinInts(gf.LogTbl)), true
@@ -104,10 +132,11 @@ func miscOp(f []string) (string, bool) {
 }
 
 // bitListOp interprets a script of BitList operations:
-//   z | n<cap>   zero value / NewBitList(cap)           (first token)
-//   a<0|1>       AddBit          A<bits>  AddBit(bits...) variadic
-//   B<byte>      AddByte         b<x>,<k> AddBits(x, k)
-//   s<i>,<0|1>   SetBit          g<i>     GetBit (result appended to gets=)
+//
+//	z | n<cap>   zero value / NewBitList(cap)           (first token)
+//	a<0|1>       AddBit          A<bits>  AddBit(bits...) variadic
+//	B<byte>      AddByte         b<x>,<k> AddBits(x, k)
+//	s<i>,<0|1>   SetBit          g<i>     GetBit (result appended to gets=)
 func bitListOp(script []string) string {
 	var bl *utils.BitList
 	var gets strings.Builder
